@@ -39,11 +39,15 @@ def units(tier):
         sc = hydro.SOLVERS[key]
         for case in sc.cases: us.append(('%s/%s' % (key, sc.case_name(case)), {'key': key, 'case': case, 'tier': tier}))
     us += [(n, dict(k, tier=tier, riemann=True)) for n, k in rk.units('C10', ['selfsimilar'], tier)]
+    us.append(('guderley', {'gud': True}))
     us.append(('mader', {'mader': True}))
     return us
 
 
-def run_unit(name, key=None, case=None, tier='quick', riemann=False, pat=None, fam=None, mader=False):
+def run_unit(name, key=None, case=None, tier='quick', riemann=False, pat=None, fam=None, mader=False, gud=False):
+    if gud:
+        from props import guderley_kit
+        return guderley_kit.unit('C10')
     if mader:
         from props import mader_kit
         return mader_kit.unit('C10')
